@@ -1,8 +1,8 @@
 (* Tie B for C16: a program over the GF operators (coefficient lists as leaves), what the
    implementation answered for gf[i] and gf(x), and the model's answers.
-   Leaves are summed up to term [min (max_len e) 300] instead of 300: Properties/C16.v,
-   [C16_tie_eval_is_eval], proves that on exactly these programs this is [eval] (the 301-term
-   loop), term for term equal because every further coefficient is 0. *)
+   Every leaf is summed up to term [max_len e] (the longest coefficient list of the program):
+   Properties/C16.v, [C16_tie_eval_is_eval], proves that on exactly these programs this is [eval]
+   (every leaf up to its own _maxTerm), because every further coefficient is 0. *)
 From Coq Require Import List ZArith QArith Bool Arith.
 From EpyV Require Import Lib.Prelude Model.GF.
 Import ListNotations.
@@ -16,7 +16,7 @@ Record case_t := {
   o_values : list Q
 }.
 
-Definition tie_eval (e : expr) (g : gf) (x : Q) : Q := eval_to (Nat.min (max_len e) max_term) g x.
+Definition tie_eval (e : expr) (g : gf) (x : Q) : Q := eval_to (max_len e) g x.
 
 Definition check_case (c : case_t) : bool :=
   match build (c_expr c) with
